@@ -592,7 +592,7 @@ public:
     Json generate(const sim::Options &o, uint64_t caseSeed, long index) override
     {
         // C03 enumerates the cancellation index k within a base case (fault enumeration)
-        long stride = o.thorough() ? 160 : 48;
+        long stride = o.thorough() ? 160 : 32;
         long base = index, j = 0;
         uint64_t seed = caseSeed;
         if (o.prop == "C03")
